@@ -9,12 +9,16 @@ pub mod c06;
 pub mod c07;
 pub mod c12;
 pub mod parsefam;
+pub mod printfam;
 
 pub fn run(id: &str, cfg: &Config) -> i32 {
 	match id {
 		"C01" => c01::run(cfg),
 		"C02" => c02::run(cfg),
 		"C03" => c03::run(cfg),
+		"C04" => printfam::run_c04(cfg),
+		"C08" => printfam::run_c08(cfg),
+		"C13" => printfam::run_c13(cfg),
 		"C05" => c05::run(cfg),
 		"C06" => c06::run(cfg),
 		"C07" => c07::run(cfg),
@@ -58,6 +62,7 @@ pub fn replay(id: &str, cfg: &Config, path: &Path) -> i32 {
 		}
 		("C03", _) => c03::replay_case(cfg, &case),
 		("C06", "history") => c06::replay_case(&case),
+		("C04" | "C08" | "C13", _) => printfam::replay_case(id, &case),
 		_ => None,
 	};
 	match fired {
